@@ -136,6 +136,22 @@ func (a *HypAttributes) Validate() error {
 		}
 	}
 
+	// NOTE: the Hyperlane message server is called directly, without the basic
+	// validation of the message, and the module panics on a gas limit that is
+	// not set and when it builds a coin set out of a non-zero max fee that is
+	// not a valid coin.
+	if a.GasLimit.IsNil() {
+		return core.ErrNilPointer.Wrap("gas limit is not set")
+	}
+	if a.MaxFee.Amount.IsNil() {
+		return core.ErrNilPointer.Wrap("max fee amount is not set")
+	}
+	if !a.MaxFee.Amount.IsZero() {
+		if err := a.MaxFee.Validate(); err != nil {
+			return fmt.Errorf("invalid max fee: %w", err)
+		}
+	}
+
 	return nil
 }
 
